@@ -421,3 +421,24 @@ def tokenize (query : Str) : Except Err (List Token) := do
   | [] => pure l.toks.reverse
 
 end JPV.Impl
+
+namespace JPV.Impl
+
+/-- `_lex_string`'s loop on the characters that follow the opening quote, in list
+form: the token value (characters up to the closing quote, escapes kept) and the
+input after the closing quote; `none` = "invalid escape" or "unclosed string".
+(`lexStrLoop` is the same loop on the `Lexer` object; `Proofs.LexStr`.) -/
+def scanString (quote : Char) : List Char → Option (Str × List Char)
+  | [] => none
+  | c :: r =>
+    if c = '\\' then
+      match r with
+      | p :: r2 =>
+        if isEscapeChar p || p = quote then
+          (scanString quote r2).map (fun res => (c :: p :: res.1, res.2))
+        else none
+      | [] => none
+    else if c = quote then some ([], r)
+    else (scanString quote r).map (fun res => (c :: res.1, res.2))
+
+end JPV.Impl
